@@ -1778,7 +1778,18 @@ func (n *node) unregisterProcess(p *process, reason error) {
 	n.processes.Delete(p.pid)
 	n.RouteTerminatePID(p.pid, reason)
 	// drop the links/monitors this process had requested
-	n.targetManager.CleanupConsumer(p.pid)
+	linkTargets, monitorTargets := n.targetManager.CleanupConsumer(p.pid)
+	// it was a consumer of these events
+	for _, t := range linkTargets {
+		if ev, ok := t.(gen.Event); ok {
+			n.eventConsumerGone(ev)
+		}
+	}
+	for _, t := range monitorTargets {
+		if ev, ok := t.(gen.Event); ok {
+			n.eventConsumerGone(ev)
+		}
+	}
 
 	if p.application != system.Name {
 		// do not count system app processes
@@ -1923,6 +1934,32 @@ func (n *node) unregisterEvent(name gen.Atom, pid gen.PID) error {
 	n.events.Delete(ev)
 	n.RouteTerminateEvent(ev, gen.ErrUnregistered)
 	return nil
+}
+
+// eventConsumerGone is called for every link/monitor relation with a local event
+// removed by the termination of the consumer (there was no Unlink/Demonitor request):
+// decrements the consumer counter of the event and notifies the producer if this
+// was the last consumer (see RouteUnlinkEvent)
+func (n *node) eventConsumerGone(target gen.Event) {
+	if target.Node != n.name {
+		return
+	}
+	value, exist := n.events.Load(target)
+	if exist == false {
+		return
+	}
+	event := value.(*eventOwner)
+	c := atomic.AddInt32(&event.consumers, -1)
+	if event.notify == false || c > 0 {
+		return
+	}
+	options := gen.MessageOptions{
+		Priority: gen.MessagePriorityHigh,
+	}
+	message := gen.MessageEventStop{
+		Name: target.Name,
+	}
+	n.RouteSendPID(n.corePID, event.producer, options, message)
 }
 
 func (n *node) validateLicenses(versions ...gen.Version) {
